@@ -53,6 +53,13 @@ type towerPkg struct {
 	tower    string   // name of the tower package whose translated structures / methods are reused ("" = none)
 	towerDir string   // its directory (import path suffix)
 	files    []string // only these files of dir (nil = all)
+	// extended mode (slpx.go): hash-to-curve maps ("h2c", Gen/H2C) and algebraic-hash pieces ("hash", Gen/Hash)
+	ext      string
+	extraDir string   // second package translated together with dir (ecc/<curve>/hash_to_curve)
+	fnFiles  []string // only functions of these files (paths relative to dir / "<base of extraDir>/file") are translated
+	specRecv string   // receiver type whose fields are fixed by the specialisation (Permutation)
+	widths   []int    // hash: the widths to specialise for
+	specElem []string // fields of the specialisation receiver that hold one base-field element (digest.h): parameters
 	// pairing packages (step functions / final exponentiation of pairing.go, Gen/Pairing): same Go package as the curve
 	// package `name` (its parent), which in turn may reuse the tower package `tower`
 	pairing bool
@@ -60,6 +67,10 @@ type towerPkg struct {
 
 func (c towerPkg) sub() string {
 	switch {
+	case c.ext == "h2c":
+		return "H2C"
+	case c.ext == "hash":
+		return "Hash"
 	case c.pairing:
 		return "Pairing"
 	case c.curve:
@@ -161,6 +172,9 @@ const maxPatterns = 15 // above this only partitions whose merged blocks contain
 // ---------------------------------------------------------------- types, values, locations
 
 type typ struct {
+	prim   string // "Nat" (Go uint64) / "Int" (Go int): run-time flags (extended mode)
+	limbs  bool   // result of Element.Bits(): the term is the canonical representative (a Nat)
+	fun    bool   // long array (extended mode, more than maxStructArr elements): a function of the index, `Nat → elem`
 	base   bool
 	name   string // Lean structure name (E2, Arr5)
 	arr    bool
@@ -171,8 +185,12 @@ type typ struct {
 
 func (t *typ) lean() string {
 	switch {
+	case t.prim != "":
+		return t.prim
 	case t.base:
 		return "F"
+	case t.arr && t.fun:
+		return "(Nat → " + t.ftypes[0].lean() + ")"
 	case t.list:
 		return "(List " + t.ftypes[0].lean() + ")"
 	case t.arr:
@@ -211,26 +229,33 @@ func reject(f string, a ...any) { panic(slpErr(fmt.Sprintf(f, a...))) }
 // ---------------------------------------------------------------- package context
 
 type param struct {
-	name  string
-	t     *typ
-	ptr   bool
-	isInt bool
+	name   string
+	t      *typ
+	ptr    bool
+	isInt  bool
+	slice  bool // []Element: a pointer to an array whose length is fixed by the specialisation
+	isBool bool // static bool
+	spec   bool // receiver of the specialisation struct (h *Permutation)
 }
 
 type fn struct {
-	key    string // "E2.Mul", "mulGenericE2", "Element.MulByNonResidue"
-	decl   *ast.FuncDecl
-	inBase bool
-	pos    []*param // receiver (if any) followed by the parameters
-	kind   int      // kProc (nothing / pointer returned), kValue (field-like value), kBool
-	ret    *typ
-	err    string
+	key      string // "E2.Mul", "mulGenericE2", "Element.MulByNonResidue"
+	decl     *ast.FuncDecl
+	inBase   bool
+	pos      []*param // receiver (if any) followed by the parameters
+	kind     int      // kProc (nothing / pointer returned), kValue (field-like value), kBool
+	ret      *typ
+	rets     []*typ   // kMulti
+	resNames []string // named results (extended mode): zero-initialised locals
+	err      string
 }
 
 const (
 	kProc = iota
 	kValue
 	kBool
+	kFlag  // uint64 / int result (extended mode)
+	kMulti // several field-like values
 )
 
 type global struct {
@@ -238,6 +263,7 @@ type global struct {
 	t       *typ
 	lit     ast.Expr         // literal initialiser (composite literal) or nil
 	elems   map[int]ast.Expr // array elements assigned literally in init()
+	uelems  map[int]*big.Int // array elements set by g[i].SetUint64(k) in init() (extended mode)
 	mutated bool             // assigned outside init(): never a constant
 	inBase  bool
 }
@@ -263,6 +289,9 @@ type pkgCtx struct {
 	constSet   map[string]bool
 	known      []string // alias theorems suppressed as known findings
 	nBoolAlias int
+	extraQual  map[*ast.File]string // import name of cfg.extraDir
+	relOf      map[*ast.File]string // path relative to cfg.dir
+	iconsts    map[string]int64     // integer constants of the package (extended mode)
 }
 
 type variant struct {
@@ -274,7 +303,10 @@ type variant struct {
 	isPtr    []bool // root is reachable through a pointer (part of the result)
 	inUsed   []bool
 	written  []bool
-	gparams  []string // globals that are parameters (not literal), transitive
+	gparams  []string        // globals that are parameters (not literal), transitive
+	spec     *spec           // specialisation (extended mode)
+	sparams  map[string]*typ // parameters standing for data of the specialisation receiver (round key)
+	prims    map[string]bool
 	oparams  []string // opaque functions (pairing packages only): untranslatable callees that are parameters of the def
 	otypes   map[string]string
 	retRoot  int  // index into roots of the returned pointer, -1 if none
@@ -322,7 +354,8 @@ func buildOK(f *ast.File, fname string) bool {
 func loadPkg(cfg towerPkg, parent *pkgCtx) *pkgCtx {
 	p := &pkgCtx{cfg: cfg, parent: parent, towerQual: map[*ast.File]string{}, onceVars: map[string]bool{}, fc: extractField(cfg.baseDir), baseQual: map[*ast.File]string{}, fileOf: map[*ast.FuncDecl]*ast.File{},
 		structs: map[string]*typ{}, arrays: map[string]*typ{}, funcs: map[string]*fn{}, globals: map[string]*global{},
-		variants: map[string]*variant{}, constSet: map[string]bool{}, aliases: map[string]ast.Expr{}, aliasFile: map[string]*ast.File{}}
+		variants: map[string]*variant{}, constSet: map[string]bool{}, aliases: map[string]ast.Expr{}, aliasFile: map[string]*ast.File{},
+		extraQual: map[*ast.File]string{}, relOf: map[*ast.File]string{}, iconsts: map[string]int64{}}
 	fset := token.NewFileSet()
 	var files []*ast.File
 	inBase := map[*ast.File]bool{}
@@ -348,9 +381,18 @@ func loadPkg(cfg towerPkg, parent *pkgCtx) *pkgCtx {
 					p.towerQual[f] = im.Name.Name
 				}
 			}
+			if cfg.extraDir != "" && strings.HasSuffix(ip, "/"+cfg.extraDir) {
+				p.extraQual[f] = filepath.Base(ip)
+				if im.Name != nil {
+					p.extraQual[f] = im.Name.Name
+				}
+			}
 		}
 		files = append(files, f)
 		inBase[f] = base
+		if rel, err := filepath.Rel(filepath.Join(repo, cfg.dir), path); err == nil {
+			p.relOf[f] = filepath.ToSlash(rel)
+		}
 	}
 	for _, bf := range cfg.baseFiles {
 		load(filepath.Join(repo, cfg.baseDir, bf), true)
@@ -378,6 +420,26 @@ func loadPkg(cfg towerPkg, parent *pkgCtx) *pkgCtx {
 						p.aliases[ts.Name.Name] = ts.Type
 						p.aliasFile[ts.Name.Name] = f
 					}
+				}
+			}
+		}
+	}
+	if cfg.extraDir != "" {
+		xn, _ := filepath.Glob(filepath.Join(repo, cfg.extraDir, "*.go"))
+		sort.Strings(xn)
+		for _, n := range xn {
+			for _, w := range cfg.fnFiles {
+				if w == filepath.Base(cfg.extraDir)+"/"+filepath.Base(n) {
+					load(n, false)
+				}
+			}
+		}
+	}
+	if cfg.ext != "" {
+		for _, f := range files {
+			for _, d := range f.Decls {
+				if gd, ok := d.(*ast.GenDecl); ok && gd.Tok == token.CONST && !inBase[f] {
+					p.scanConsts(gd)
 				}
 			}
 		}
@@ -464,6 +526,15 @@ func loadPkg(cfg towerPkg, parent *pkgCtx) *pkgCtx {
 					p.scanInit(f, d)
 					continue
 				}
+				if cfg.fnFiles != nil && !inBase[f] {
+					keep := false
+					for _, w := range cfg.fnFiles {
+						keep = keep || w == p.relOf[f]
+					}
+					if !keep {
+						continue
+					}
+				}
 				p.addFunc(f, inBase[f], d)
 			case *ast.GenDecl:
 				if d.Tok != token.VAR {
@@ -509,12 +580,29 @@ func loadPkg(cfg towerPkg, parent *pkgCtx) *pkgCtx {
 						continue
 					}
 					t, ptr, _ := p.typeOf(f, inBase[f], te)
+					made := false
+					if at, ok := te.(*ast.ArrayType); ok && at.Len == nil && cfg.ext != "" {
+						// slice variable with a literal initialiser: an array of that many elements
+						if cl, ok := firstExpr(vs.Values).(*ast.CompositeLit); ok && len(cl.Elts) > 0 {
+							if et, eptr, _ := p.typeOf(f, inBase[f], at.Elt); et != nil && !eptr {
+								t, ptr = p.arrType(len(cl.Elts), et), false
+							}
+						}
+						// var g []T = make([]T, n): n zero elements, filled by init()
+						if c, ok := firstExpr(vs.Values).(*ast.CallExpr); ok && exprStr(c.Fun) == "make" && len(c.Args) == 2 && len(vs.Names) == 1 {
+							if n := litInt(c.Args[1]); n != nil && n.IsInt64() && n.Int64() >= 1 && n.Int64() <= 4096 && exprStr(c.Args[0]) == exprStr(te) {
+								if et, eptr, _ := p.typeOf(f, inBase[f], at.Elt); et != nil && !eptr {
+									t, ptr, made = p.arrType(int(n.Int64()), et), false, true
+								}
+							}
+						}
+					}
 					if t == nil || ptr {
 						continue
 					}
 					for i, nm := range vs.Names {
 						g := &global{name: nm.Name, t: t, elems: map[int]ast.Expr{}, inBase: inBase[f]}
-						if i < len(vs.Values) {
+						if i < len(vs.Values) && !made {
 							g.lit = vs.Values[i]
 						}
 						p.globals[nm.Name] = g
@@ -591,6 +679,28 @@ func rootIdent(e ast.Expr) *ast.Ident {
 // scanInit records `g[i] = <composite literal>` / `g = <composite literal>` statements of init().
 func (p *pkgCtx) scanInit(f *ast.File, d *ast.FuncDecl) {
 	for _, s := range d.Body.List {
+		if es, ok := s.(*ast.ExprStmt); ok && p.cfg.ext != "" {
+			// g[i].SetUint64(k)
+			if c, ok := es.X.(*ast.CallExpr); ok && len(c.Args) == 1 {
+				if se, ok := c.Fun.(*ast.SelectorExpr); ok && se.Sel.Name == "SetUint64" {
+					if ix, ok := se.X.(*ast.IndexExpr); ok {
+						if id, ok := ix.X.(*ast.Ident); ok {
+							g, i, k := p.globals[id.Name], litInt(ix.Index), litInt(c.Args[0])
+							if g != nil && g.t.arr && g.t.ftypes[0].base && i != nil && k != nil && i.IsInt64() {
+								if g.uelems == nil {
+									g.uelems = map[int]*big.Int{}
+								}
+								if _, dup := g.uelems[int(i.Int64())]; dup {
+									g.mutated = true // set twice: not a constant we understand
+								}
+								g.uelems[int(i.Int64())] = k
+							}
+						}
+					}
+				}
+			}
+			continue
+		}
 		as, ok := s.(*ast.AssignStmt)
 		if !ok || len(as.Lhs) != 1 || as.Tok != token.ASSIGN {
 			continue
@@ -667,21 +777,20 @@ func (p *pkgCtx) typeOf(f *ast.File, inBase bool, e ast.Expr) (*typ, bool, bool)
 		}
 	case *ast.ArrayType:
 		n := litInt(x.Len)
+		lim := int64(32)
+		if p.cfg.ext != "" {
+			lim = 4096
+			if id, ok := x.Len.(*ast.Ident); ok && n == nil {
+				if k, ok := p.iconsts[id.Name]; ok {
+					n = big.NewInt(k)
+				}
+			}
+		}
 		et, ptr, _ := p.typeOf(f, inBase, x.Elt)
-		if n == nil || et == nil || ptr || n.Int64() < 1 || n.Int64() > 32 {
+		if n == nil || et == nil || ptr || n.Int64() < 1 || n.Int64() > lim {
 			return nil, false, false
 		}
-		key := fmt.Sprintf("[%d]%s", n.Int64(), et.lean())
-		if t := p.arrays[key]; t != nil {
-			return t, false, false
-		}
-		t := &typ{arr: true, name: fmt.Sprintf("Arr%d", n.Int64())}
-		for i := 0; i < int(n.Int64()); i++ {
-			t.fields = append(t.fields, fmt.Sprintf("e%d", i))
-			t.ftypes = append(t.ftypes, et)
-		}
-		p.arrays[key] = t
-		return t, false, false
+		return p.arrType(int(n.Int64()), et), false, false
 	case *ast.ParenExpr:
 		return p.typeOf(f, inBase, x.X)
 	}
@@ -689,6 +798,23 @@ func (p *pkgCtx) typeOf(f *ast.File, inBase bool, e ast.Expr) (*typ, bool, bool)
 }
 
 var baseT = &typ{base: true, name: "F"}
+
+// arrays longer than this are functions of the index (a structure with that many fields is too slow to elaborate)
+const maxStructArr = 32
+
+func (p *pkgCtx) arrType(n int, et *typ) *typ {
+	key := fmt.Sprintf("[%d]%s", n, et.lean())
+	if t := p.arrays[key]; t != nil {
+		return t
+	}
+	t := &typ{arr: true, name: fmt.Sprintf("Arr%d", n), fun: n > maxStructArr}
+	for i := 0; i < n; i++ {
+		t.fields = append(t.fields, fmt.Sprintf("e%d", i))
+		t.ftypes = append(t.ftypes, et)
+	}
+	p.arrays[key] = t
+	return t
+}
 
 func (p *pkgCtx) addFunc(f *ast.File, inBase bool, d *ast.FuncDecl) {
 	fnv := &fn{decl: d, inBase: inBase, key: d.Name.Name}
@@ -700,30 +826,50 @@ func (p *pkgCtx) addFunc(f *ast.File, inBase bool, d *ast.FuncDecl) {
 	if d.Recv != nil {
 		fl := d.Recv.List[0]
 		t, ptr, _ := p.typeOf(f, inBase, fl.Type)
-		if t == nil {
-			return // receiver is not field-like: not our business
-		}
-		rn := t.name
-		if t.base {
-			rn = "Element"
-		}
-		fnv.key = rn + "." + d.Name.Name
-		if !ptr || len(fl.Names) != 1 {
-			bad("value receiver")
+		if t == nil && p.cfg.specRecv != "" && exprStr(fl.Type) == "*"+p.cfg.specRecv && len(fl.Names) == 1 {
+			fnv.key = p.cfg.specRecv + "." + d.Name.Name
+			fnv.pos = append(fnv.pos, &param{name: fl.Names[0].Name, spec: true})
 		} else {
-			fnv.pos = append(fnv.pos, &param{name: fl.Names[0].Name, t: t, ptr: true})
+			if t == nil {
+				return // receiver is not field-like: not our business
+			}
+			rn := t.name
+			if t.base {
+				rn = "Element"
+			}
+			fnv.key = rn + "." + d.Name.Name
+			if !ptr || len(fl.Names) != 1 {
+				bad("value receiver")
+			} else {
+				fnv.pos = append(fnv.pos, &param{name: fl.Names[0].Name, t: t, ptr: true})
+			}
 		}
 	}
 	for _, fl := range d.Type.Params.List {
 		t, ptr, isInt := p.typeOf(f, inBase, fl.Type)
-		if t == nil && !isInt {
+		q := param{t: t, ptr: ptr, isInt: isInt}
+		if t == nil && !isInt && p.cfg.ext != "" {
+			if at, ok := fl.Type.(*ast.ArrayType); ok && at.Len == nil {
+				if et, eptr, _ := p.typeOf(f, inBase, at.Elt); et != nil && !eptr {
+					q.slice, q.ptr, q.t = true, true, et // t = element type until the specialisation fixes the length
+				}
+			}
+			if id, ok := fl.Type.(*ast.Ident); ok && id.Name == "bool" {
+				q.isBool = true
+			}
+		}
+		if t == nil && !isInt && !q.slice && !q.isBool {
 			bad("parameter of unsupported type " + exprStr(fl.Type))
 		}
 		for _, nm := range fl.Names {
-			fnv.pos = append(fnv.pos, &param{name: nm.Name, t: t, ptr: ptr, isInt: isInt})
+			qq := q
+			qq.name = nm.Name
+			fnv.pos = append(fnv.pos, &qq)
 		}
 	}
-	if r := d.Type.Results; r != nil {
+	if r := d.Type.Results; r != nil && p.cfg.ext != "" && p.extResults(f, inBase, fnv, r) {
+		// handled by slpx.go (flag / several values / named results)
+	} else if r != nil {
 		if len(r.List) != 1 || len(r.List[0].Names) > 1 {
 			bad("multiple results")
 		} else if id, ok := r.List[0].Type.(*ast.Ident); ok && id.Name == "bool" {
@@ -743,7 +889,7 @@ func (p *pkgCtx) addFunc(f *ast.File, inBase bool, d *ast.FuncDecl) {
 	}
 	if d.Recv == nil {
 		// plain functions are only interesting when they touch field-like data
-		any := fnv.ret != nil
+		any := fnv.ret != nil || fnv.rets != nil
 		for _, q := range fnv.pos {
 			any = any || q.t != nil
 		}
@@ -860,6 +1006,10 @@ func leanFn(key string) string {
 type state struct {
 	cells map[string]*val
 	ptrs  map[string]loc
+	// extended mode: values known at translation time
+	sints  map[string]int64
+	sbools map[string]bool
+	bigs   map[string]*big.Int
 }
 
 func (s *state) clone() *state {
@@ -869,6 +1019,18 @@ func (s *state) clone() *state {
 	}
 	for k, v := range s.ptrs {
 		c.ptrs[k] = v
+	}
+	if s.sints != nil {
+		c.sints, c.sbools, c.bigs = map[string]int64{}, map[string]bool{}, map[string]*big.Int{}
+		for k, v := range s.sints {
+			c.sints[k] = v
+		}
+		for k, v := range s.sbools {
+			c.sbools[k] = v
+		}
+		for k, v := range s.bigs {
+			c.bigs[k] = new(big.Int).Set(v)
+		}
 	}
 	return c
 }
@@ -887,9 +1049,18 @@ type tr struct {
 	ints      map[string]bool   // int parameters (loop bounds)
 	paramRoot map[string]bool
 	loop      int // > 0 inside a loop body
+	// extended mode
+	prm      map[string]bool                  // primitive parameters used (legendre, sqrt, ...)
+	multi    []*val                           // values of the last kMulti call
+	loopSnap map[*ast.ForStmt]map[string]bool // names in scope before an unrolled loop
+	outer    map[*ast.ForStmt]map[string]bool // names in scope outside an unrolled loop
+	unrolled int
 }
 
 func zeroVal(t *typ) *val {
+	if t.prim != "" {
+		return &val{t: t, term: "((0) : " + t.prim + ")"}
+	}
 	if t.base {
 		return &val{t: t, term: "(0 : F)"}
 	}
@@ -917,6 +1088,9 @@ func (x *tr) read(v *val) string {
 		}
 		return v.term
 	}
+	if v.t.fun {
+		reject("a long array is built element by element")
+	}
 	parts := []string{v.t.name + ".mk"}
 	for _, k := range v.kids {
 		parts = append(parts, x.read(k))
@@ -927,6 +1101,9 @@ func (x *tr) read(v *val) string {
 func kid(v *val, i int) *val {
 	if v.kids != nil {
 		return v.kids[i]
+	}
+	if v.t.fun {
+		return &val{t: v.t.ftypes[i], term: fmt.Sprintf("(%s %d)", v.term, i), origin: v.origin}
 	}
 	return &val{t: v.t.ftypes[i], term: v.term + "." + v.t.fields[i], origin: v.origin}
 }
@@ -961,6 +1138,9 @@ func (x *tr) typeAt(s *state, l loc) *typ {
 func (x *tr) write(s *state, l loc, nv *val) {
 	if strings.HasPrefix(l.root, "g:") {
 		reject("write to package-level variable %s", l.root[2:])
+	}
+	if strings.HasPrefix(l.root, "spec:") {
+		reject("write to data of the specialisation receiver (%s)", l.root[5:])
 	}
 	if !x.typeAt(s, l).same(nv.t) {
 		reject("type mismatch in assignment to %s", x.locName(s, l))
@@ -1020,6 +1200,11 @@ func (x *tr) newRoot(s *state, name string, v *val) {
 	}
 	if _, dup := s.ptrs[name]; dup {
 		reject("redeclaration of %s", name)
+	}
+	if v.t != nil && v.t.prim != "" && v.kids == nil && !isLeanIdent(v.term) && !strings.HasPrefix(v.term, "((0)") {
+		n := x.fresh(name)
+		x.emit(n, v.term)
+		v = &val{t: v.t, term: n}
 	}
 	s.cells[name] = v
 }
@@ -1085,6 +1270,11 @@ func (x *tr) fieldIndex(t *typ, name string) int {
 
 // evalLoc: addressable expression -> location (pointer variables are dereferenced implicitly)
 func (x *tr) evalLoc(s *state, e ast.Expr) loc {
+	if x.p.cfg.ext != "" {
+		if l, ok := x.extLoc(s, e); ok {
+			return l
+		}
+	}
 	switch e := e.(type) {
 	case *ast.Ident:
 		if l, ok := s.ptrs[e.Name]; ok {
@@ -1121,6 +1311,11 @@ func (x *tr) evalLoc(s *state, e ast.Expr) loc {
 		l := x.evalLoc(s, e.X)
 		t := x.typeAt(s, l)
 		i := litInt(e.Index)
+		if i == nil && x.p.cfg.ext != "" {
+			if n, ok := x.evalInt(s, e.Index); ok && n >= 0 {
+				i = big.NewInt(n)
+			}
+		}
 		if !t.arr || i == nil || int(i.Int64()) >= len(t.fields) {
 			reject("unsupported index expression %s", exprStr(e))
 		}
@@ -1173,6 +1368,11 @@ func (x *tr) evalPtr(s *state, e ast.Expr) loc {
 
 // evalVal: expression of field-like value type -> value
 func (x *tr) evalVal(s *state, e ast.Expr) *val {
+	if x.p.cfg.ext != "" {
+		if v := x.extVal(s, e); v != nil {
+			return v
+		}
+	}
 	switch e := e.(type) {
 	case *ast.ParenExpr:
 		return x.evalVal(s, e.X)
@@ -1208,7 +1408,7 @@ func (x *tr) baseLit(cl *ast.CompositeLit) *val {
 	if len(cl.Elts) == 0 {
 		return zeroVal(baseT)
 	}
-	if len(cl.Elts) != limbs {
+	if len(cl.Elts) != limbs && !(x.p.cfg.ext != "" && len(cl.Elts) < limbs) { // a shorter array literal is padded with zero limbs
 		reject("base-field literal with %d limbs", len(cl.Elts))
 	}
 	r := new(big.Int).Lsh(big.NewInt(1), uint(limbs*fc.word))
@@ -1265,6 +1465,11 @@ func (x *tr) compositeOf(s *state, t *typ, cl *ast.CompositeLit) *val {
 // ---- conditions
 
 func (x *tr) cond(s *state, e ast.Expr) string {
+	if x.p.cfg.ext != "" {
+		if b, ok := x.staticCond(s, e); ok {
+			return strconv.FormatBool(b)
+		}
+	}
 	switch e := e.(type) {
 	case *ast.ParenExpr:
 		return x.cond(s, e.X)
@@ -1340,11 +1545,27 @@ func nTimes(n int, a string) string {
 func (x *tr) call(s *state, c *ast.CallExpr) (*loc, *val, string) {
 	var recv *loc
 	var name string
+	if x.p.cfg.ext != "" {
+		if l, v, done := x.extCall(s, c); done {
+			return l, v, ""
+		}
+	}
 	switch f := c.Fun.(type) {
 	case *ast.Ident:
 		name = f.Name
 	case *ast.SelectorExpr:
 		name = f.Sel.Name
+		if id, ok := f.X.(*ast.Ident); ok && x.p.cfg.ext != "" && id.Name == x.p.extraQual[x.file] && s.cells[id.Name] == nil {
+			// function of the second package (hash_to_curve.G1Sgn0): both packages are translated together
+			fn, owner := x.p.lookupFn(name)
+			return x.callFn(s, fn, owner, name, nil, c)
+		}
+		if id, ok := f.X.(*ast.Ident); ok && x.p.cfg.specRecv != "" && len(x.v.f.pos) > 0 && x.v.f.pos[0].spec && id.Name == x.v.f.pos[0].name {
+			// method of the specialisation receiver: h.matMulM4InPlace(input)
+			key := x.p.cfg.specRecv + "." + name
+			fn, owner := x.p.lookupFn(key)
+			return x.callFn(s, fn, owner, key, &loc{root: "spec:"}, c)
+		}
 		if id, ok := f.X.(*ast.Ident); ok && id.Name == x.p.baseQual[x.file] && !x.v.f.inBase && s.cells[id.Name] == nil {
 			// helper of the base package applied in place: fp.MulBy3(&x)
 			if strings.HasPrefix(name, "MulBy") && len(c.Args) == 1 {
@@ -1375,7 +1596,7 @@ func (x *tr) call(s *state, c *ast.CallExpr) (*loc, *val, string) {
 	}
 	if recv != nil && x.typeAt(s, *recv).base {
 		if r, done := x.baseCall(s, *recv, name, c); done {
-			return r.l, nil, r.b
+			return r.l, r.v, r.b
 		}
 		f, owner := x.p.lookupFn("Element." + name)
 		return x.callFn(s, f, owner, "Element."+name, recv, c)
@@ -1391,6 +1612,7 @@ func (x *tr) call(s *state, c *ast.CallExpr) (*loc, *val, string) {
 type baseRes struct {
 	l *loc
 	b string
+	v *val // flag result (extended mode)
 }
 
 func (x *tr) baseCall(s *state, dst loc, op string, c *ast.CallExpr) (baseRes, bool) {
@@ -1401,6 +1623,11 @@ func (x *tr) baseCall(s *state, dst loc, op string, c *ast.CallExpr) (baseRes, b
 			reject("argument %d of %s is not a base-field pointer", i, op)
 		}
 		return x.read(get(s.cells[l.root], l.path))
+	}
+	if x.p.cfg.ext != "" {
+		if r, done := x.extBaseCall(s, dst, op, c); done {
+			return r, true
+		}
 	}
 	switch {
 	case op == "IsZero" && len(c.Args) == 0:
@@ -1472,11 +1699,43 @@ func (x *tr) callFn(s *state, f *fn, owner *pkgCtx, key string, recv *loc, c *as
 	// evaluate the arguments left to right
 	locs := make([]*loc, len(f.pos))
 	vals := make([]string, len(f.pos))
+	var sp *spec
+	if x.p.cfg.ext != "" {
+		sp = newSpec()
+		if x.v.spec != nil {
+			sp.width = x.v.spec.width
+		}
+	}
 	ai := 0
 	for i, q := range f.pos {
 		switch {
+		case i == 0 && recv != nil && q.spec:
+			// the specialisation receiver carries no run-time data
 		case i == 0 && recv != nil:
 			locs[i] = recv
+		case q.isBool:
+			b, ok := x.staticCond(s, args[ai])
+			if !ok {
+				reject("non-static bool argument calling %s", key)
+			}
+			sp.bools[i] = b
+			ai++
+		case q.isInt && sp != nil:
+			if n, ok := x.evalInt(s, args[ai]); ok {
+				sp.ints[i] = n
+			} else {
+				sp.opaque[i] = true
+			}
+			ai++
+		case q.slice:
+			l := x.sliceLoc(s, args[ai])
+			t := x.typeAt(s, l)
+			if !t.arr || !t.ftypes[0].same(q.t) {
+				reject("slice argument %d of %s is not an array of the element type", ai, key)
+			}
+			locs[i] = &l
+			sp.arrs[i] = t
+			ai++
 		case q.isInt:
 			n := litInt(args[ai])
 			if n == nil {
@@ -1498,7 +1757,7 @@ func (x *tr) callFn(s *state, f *fn, owner *pkgCtx, key string, recv *loc, c *as
 			vals[i] = x.read(x.evalVal(s, args[ai]))
 			ai++
 		}
-		if locs[i] != nil && !x.typeAt(s, *locs[i]).same(q.t) {
+		if locs[i] != nil && !q.slice && !x.typeAt(s, *locs[i]).same(q.t) {
 			reject("argument type mismatch calling %s", key)
 		}
 	}
@@ -1511,7 +1770,7 @@ func (x *tr) callFn(s *state, f *fn, owner *pkgCtx, key string, recv *loc, c *as
 			if locs[j] == nil {
 				continue
 			}
-			if locs[i].eq(*locs[j]) && f.pos[i].t.same(f.pos[j].t) {
+			if locs[i].eq(*locs[j]) && x.typeAt(s, *locs[i]).same(x.typeAt(s, *locs[j])) {
 				pat[i] = pat[j]
 				break
 			}
@@ -1524,7 +1783,7 @@ func (x *tr) callFn(s *state, f *fn, owner *pkgCtx, key string, recv *loc, c *as
 			nb++
 		}
 	}
-	cv := owner.translate(f, pat)
+	cv := owner.translateSpec(f, pat, sp)
 	if cv.err != "" && x.p.cfg.pairing && opaqueName(key) && recv != nil && f.kind == kProc {
 		// OPAQUE callee (pairing packages only, fixed exponentiations `Expt*` of the tower whose body leaves the subset:
 		// Karabina batch decompression): `z.Expt(&x)` is modelled as `z := opq_E12_Expt x` with `opq_E12_Expt` a PARAMETER
@@ -1556,6 +1815,9 @@ func (x *tr) callFn(s *state, f *fn, owner *pkgCtx, key string, recv *loc, c *as
 	for k := range cv.classes {
 		x.need(k)
 	}
+	for k := range cv.prims {
+		x.prm[k] = true
+	}
 	// build the call
 	parts := []string{x.p.qual(owner, cv.name)}
 	rootLoc := make([]*loc, len(cv.roots))
@@ -1580,9 +1842,18 @@ func (x *tr) callFn(s *state, f *fn, owner *pkgCtx, key string, recv *loc, c *as
 		}
 	}
 	for _, g := range cv.gparams {
+		if strings.HasPrefix(g, "spec:") {
+			x.gp[g] = true
+			parts = append(parts, g[5:])
+			continue
+		}
 		x.globalRoot(s, g)
 		parts = append(parts, x.read(s.cells["g:"+g]))
 	}
+	for k, t := range cv.sparams {
+		x.v.sparams[k] = t
+	}
+	parts = append(parts, cv.primList()...)
 	if len(parts) == 1 {
 		parts = append(parts, "(F := F)")
 	}
@@ -1596,10 +1867,9 @@ func (x *tr) callFn(s *state, f *fn, owner *pkgCtx, key string, recv *loc, c *as
 		l   *loc
 	}
 	var consumed []comp
-	off := 0
-	if cv.hasVal() {
-		consumed = append(consumed, comp{0, nil})
-		off = 1
+	off := cv.nVals()
+	for j := 0; j < off; j++ {
+		consumed = append(consumed, comp{j, nil})
 	}
 	k := off
 	for b := range cv.roots {
@@ -1613,8 +1883,11 @@ func (x *tr) callFn(s *state, f *fn, owner *pkgCtx, key string, recv *loc, c *as
 	}
 	n := k
 	var ret *val
+	x.multi = nil
 	bind := func(cm comp, term string) {
-		if cm.l == nil {
+		if cm.l == nil && f.kind == kMulti {
+			x.multi = append(x.multi, &val{t: f.rets[cm.idx], term: term})
+		} else if cm.l == nil {
 			ret = &val{t: cv.ret, term: term}
 		} else {
 			x.write(s, *cm.l, &val{t: x.typeAt(s, *cm.l), term: term})
@@ -1641,8 +1914,11 @@ func (x *tr) callFn(s *state, f *fn, owner *pkgCtx, key string, recv *loc, c *as
 			bind(cm, nm+proj(cm.idx, n))
 		}
 	}
-	if f.kind == kValue {
+	if f.kind == kValue || f.kind == kFlag {
 		return nil, ret, ""
+	}
+	if f.kind == kMulti {
+		return nil, nil, ""
 	}
 	if cv.fresh {
 		x.anon++
@@ -1666,6 +1942,14 @@ func opaqueName(key string) bool {
 
 func (x *tr) block(s *state, stmts []ast.Stmt) {
 	for i, st := range stmts {
+		if x.p.cfg.ext != "" {
+			switch x.extStmt(s, st, stmts[i+1:]) {
+			case 1:
+				continue
+			case 2:
+				return
+			}
+		}
 		switch st := st.(type) {
 		case *ast.EmptyStmt:
 		case *ast.BlockStmt:
@@ -1721,7 +2005,24 @@ func (x *tr) block(s *state, stmts []ast.Stmt) {
 			if st.Init != nil {
 				reject("if statement with initialiser")
 			}
-			x.out.cond = x.cond(s, st.Cond)
+			cnd := x.cond(s, st.Cond)
+			if x.p.cfg.ext != "" && (cnd == "true" || cnd == "false") {
+				// decided at translation time: only the taken branch exists
+				var br []ast.Stmt
+				switch e := st.Else.(type) {
+				case nil:
+				case *ast.BlockStmt:
+					br = e.List
+				default:
+					br = []ast.Stmt{e}
+				}
+				if cnd == "true" {
+					br = st.Body.List
+				}
+				x.block(s, append(append([]ast.Stmt(nil), br...), stmts[i+1:]...))
+				return
+			}
+			x.out.cond = cnd
 			rest := stmts[i+1:]
 			outer := x.out
 			s2 := s.clone()
@@ -1879,6 +2180,9 @@ func (x *tr) loopStmt(s *state, st *ast.ForStmt, rs *ast.RangeStmt) {
 }
 
 func (x *tr) assign(s *state, st *ast.AssignStmt) {
+	if x.p.cfg.ext != "" && x.extAssign(s, st) {
+		return
+	}
 	if len(st.Lhs) != len(st.Rhs) {
 		reject("unsupported assignment")
 	}
@@ -1959,7 +2263,20 @@ func (x *tr) ret(s *state, st *ast.ReturnStmt) {
 			}
 		}
 		return
-	case f.kind == kValue:
+	case f.kind == kMulti:
+		if len(st.Results) != len(f.rets) {
+			reject("return count mismatch")
+		}
+		var ps []string
+		for i, r := range st.Results {
+			v := x.evalVal(s, r)
+			if !v.t.same(f.rets[i]) {
+				reject("return type mismatch")
+			}
+			ps = append(ps, x.read(v))
+		}
+		first = strings.Join(ps, ", ")
+	case f.kind == kValue || f.kind == kFlag:
 		v := x.evalVal(s, st.Results[0])
 		if !v.t.same(f.ret) {
 			reject("return type mismatch")
@@ -2001,6 +2318,9 @@ func (x *tr) ret(s *state, st *ast.ReturnStmt) {
 		reject("function has no field-like result")
 	case 1:
 		x.out.result = parts[0]
+		if f.kind == kMulti {
+			x.out.result = "(" + parts[0] + ")"
+		}
 	default:
 		x.out.result = "(" + strings.Join(parts, ", ") + ")"
 	}
@@ -2008,15 +2328,17 @@ func (x *tr) ret(s *state, st *ast.ReturnStmt) {
 
 // ---------------------------------------------------------------- translating one (function, pattern)
 
-func (p *pkgCtx) translate(f *fn, pat []int) *variant {
-	name := leanFn(f.key) + f.patName(pat)
+func (p *pkgCtx) translate(f *fn, pat []int) *variant { return p.translateSpec(f, pat, nil) }
+
+func (p *pkgCtx) translateSpec(f *fn, pat []int, sp *spec) *variant {
+	name := leanFn(f.key) + sp.suffix(f) + f.patName(pat)
 	if v := p.variants[name]; v != nil {
 		if v.busy {
 			v.err = "recursive call"
 		}
 		return v
 	}
-	v := &variant{f: f, pat: pat, name: name, classes: map[string]bool{}, retRoot: -1, busy: true, ret: f.ret}
+	v := &variant{f: f, pat: pat, name: name, classes: map[string]bool{}, retRoot: -1, busy: true, ret: f.ret, spec: sp, prims: map[string]bool{}, sparams: map[string]*typ{}}
 	p.variants[name] = v
 	blockName := map[int]string{}
 	for i, q := range f.pos {
@@ -2029,10 +2351,15 @@ func (p *pkgCtx) translate(f *fn, pat []int) *variant {
 		}
 		seen[pat[i]] = true
 		v.roots = append(v.roots, blockName[pat[i]])
-		v.rtypes = append(v.rtypes, q.t)
+		if q.slice {
+			v.rtypes = append(v.rtypes, sp.arrs[i])
+		} else {
+			v.rtypes = append(v.rtypes, q.t)
+		}
 		v.isPtr = append(v.isPtr, q.ptr)
 	}
-	x := &tr{p: p, v: v, file: p.fileOf[f.decl], ints: map[string]bool{}, paramRoot: map[string]bool{}, ctr: map[string]int{}, used: map[string]bool{}, wr: map[string]bool{}, gp: map[string]bool{}, op: map[string]string{}, out: &code{}}
+	x := &tr{p: p, v: v, file: p.fileOf[f.decl], ints: map[string]bool{}, paramRoot: map[string]bool{}, ctr: map[string]int{}, used: map[string]bool{}, wr: map[string]bool{}, gp: map[string]bool{}, op: map[string]string{}, out: &code{},
+		prm: v.prims, loopSnap: map[*ast.ForStmt]map[string]bool{}}
 	v.body = x.out
 	func() {
 		defer func() {
@@ -2048,10 +2375,26 @@ func (p *pkgCtx) translate(f *fn, pat []int) *variant {
 			reject("%s", f.err)
 		}
 		s := &state{cells: map[string]*val{}, ptrs: map[string]loc{}}
+		if p.cfg.ext != "" {
+			s.sints, s.sbools, s.bigs = map[string]int64{}, map[string]bool{}, map[string]*big.Int{}
+			x.extNamedResults(s)
+		}
 		for i, q := range f.pos {
 			r := blockName[pat[i]]
 			x.paramRoot[r] = true
 			switch {
+			case q.spec:
+			case q.isBool:
+				s.sbools[q.name] = sp.bools[i]
+			case q.isInt && sp != nil:
+				if n, ok := sp.ints[i]; ok {
+					s.sints[q.name] = n
+				}
+			case q.slice:
+				if _, ok := s.cells[r]; !ok {
+					s.cells[r] = &val{t: sp.arrs[i], term: r, origin: r}
+				}
+				s.ptrs[q.name] = loc{root: r}
 			case q.isInt:
 				x.ints[q.name] = true
 			case q.ptr:
@@ -2121,6 +2464,16 @@ func (p *pkgCtx) constOf(g *global) bool {
 				reject("not a literal")
 			}
 			v = x.compositeOf(s, g.t, cl)
+		case g.t.arr && g.lit == nil && len(g.elems) == 0 && len(g.uelems) == len(g.t.fields) && len(g.uelems) > 0:
+			v = &val{t: g.t}
+			for i := range g.t.fields {
+				k, ok := g.uelems[i]
+				if !ok {
+					reject("element %d not set", i)
+				}
+				x.need("NatCast")
+				v.kids = append(v.kids, &val{t: baseT, term: fmt.Sprintf("((%s : Nat) : F)", k)})
+			}
 		case g.t.arr && len(g.elems) == len(g.t.fields):
 			v = &val{t: g.t}
 			for i := range g.t.fields {
@@ -2150,12 +2503,19 @@ func zeroInst(term string) string {
 
 var classOrder = []string{"Add", "Sub", "Mul", "Neg", "Zero", "One", "Inv", "NatCast", "DecidableEq"}
 
+// classes whose binder is not `[_root_.C F]`
+var classBinder = map[string]string{"HPow": " [_root_.HPow F Nat F]"}
+
 func (v *variant) resultType() string {
 	var parts []string
 	if v.f.kind == kBool {
 		return "Bool"
 	}
-	if v.hasVal() {
+	if v.f.kind == kMulti {
+		for _, t := range v.f.rets {
+			parts = append(parts, t.lean())
+		}
+	} else if v.hasVal() || v.f.kind == kFlag {
 		parts = append(parts, v.ret.lean())
 	}
 	for i := range v.roots {
@@ -2176,11 +2536,20 @@ func (v *variant) binders(p *pkgCtx) string {
 		}
 	}
 	for _, g := range v.gparams {
+		if strings.HasPrefix(g, "spec:") {
+			fmt.Fprintf(&b, " (%s : %s)", g[5:], v.sparams[g[5:]].lean())
+			continue
+		}
 		gl, _ := p.global(g)
 		fmt.Fprintf(&b, " (%s : %s)", g, gl.t.lean())
 	}
 	for _, o := range v.oparams {
 		fmt.Fprintf(&b, " (%s : %s)", o, v.otypes[o])
+	}
+	for _, k := range primOrder {
+		if v.prims[k] {
+			fmt.Fprintf(&b, " (%s : %s)", k, primType[k])
+		}
 	}
 	return b.String()
 }
@@ -2195,6 +2564,9 @@ func (v *variant) instBinders(more ...*variant) string {
 		if need {
 			s += " [_root_." + c + " F]" // _root_: inside `def E2.Add` the bare name `Add` would be E2.Add itself
 		}
+	}
+	if v.classes["HPow"] {
+		s += classBinder["HPow"]
 	}
 	return s
 }
@@ -2224,6 +2596,10 @@ func (p *pkgCtx) emit() {
 			open += "open " + q.cfg.ns() + "\n"
 		}
 	}
+	if p.cfg.ext != "" {
+		imp += "import GnarkVerif.Model.GoInt\n"
+		open += "set_option maxRecDepth 16384\n"
+	}
 	fmt.Fprintf(&b, "%s/- GENERATED by tools/goslp (slp.go) from /repo/%s on every run. DO NOT EDIT.\n   One def per (function, alias pattern); see Gen/%s/summary.json for what was not translatable. -/\nset_option linter.unusedVariables false\nnamespace %s\n%s\n", imp, p.cfg.dir, p.cfg.sub(), p.cfg.ns(), open)
 	// array structures, then the package's structures in dependency order
 	var ak []string
@@ -2235,7 +2611,7 @@ func (p *pkgCtx) emit() {
 		}
 	}
 	for _, t := range p.arrays {
-		if !sizes[t.name] {
+		if !sizes[t.name] && !t.fun {
 			sizes[t.name] = true
 			ak = append(ak, t.name)
 		}
@@ -2248,6 +2624,13 @@ func (p *pkgCtx) emit() {
 			fmt.Fprintf(&b, "  e%d : α\n", i)
 		}
 		b.WriteString("deriving DecidableEq\n\n")
+		if p.cfg.ext != "" {
+			es := make([]string, k)
+			for i := range es {
+				es[i] = fmt.Sprintf("a.e%d", i)
+			}
+			fmt.Fprintf(&b, "def %s.toList {α : Type} (a : %s α) : List α := [%s]\n\n", n, n, strings.Join(es, ", "))
+		}
 	}
 	done := map[string]bool{}
 	var emitT func(t *typ)
@@ -2400,6 +2783,17 @@ func (p *pkgCtx) emitAlias() (nAlias, nFrame, nAmbiguous int) {
 }
 
 func (v *variant) hasVal() bool { return v.f.kind == kValue || v.fresh }
+
+// number of value components in front of the pointer roots
+func (v *variant) nVals() int {
+	switch {
+	case v.f.kind == kMulti:
+		return len(v.f.rets)
+	case v.hasVal() || v.f.kind == kFlag:
+		return 1
+	}
+	return 0
+}
 
 func (v *variant) nComp() int {
 	n := 0
@@ -2709,6 +3103,9 @@ func runSLP() {
 		finish(p, ps, cfg.name)
 	}
 	curvesOf("", nil)
+	xall, xfail := runExt(want)
+	all = append(all, xall...)
+	failures = append(failures, xfail...)
 	if slpPrintTargets {
 		fmt.Println(strings.Join(all, "\n"))
 	}
